@@ -49,10 +49,12 @@ Proof.
   unfold pay_fees_and_execute. intros H.
   apply bind_ok in H. destruct H as [[s1 e1] [Hp H]].
   apply c03_pay_fee_nonce in Hp.
-  destruct (fst ca);
+  destruct (fst ca) eqn:Ea;
     try (apply bind_ok in H; destruct H as [s2 [He H]];
          apply c03_execute_action_nonce in He; inversion H; subst; congruence).
-  inversion H; subst; exact Hp.
+  - inversion H; subst; exact Hp.
+  - destruct (execute_action s1 signer tx idx ca) as [s2|e] eqn:E; [|discriminate H].
+    exfalso. exact (execute_relay_failing_never_ok _ _ _ _ _ _ _ Ea E).
 Qed.
 
 Lemma c03_exec_actions_nonce l : forall s signer tx idx s' evs,
@@ -206,6 +208,151 @@ Proof.
     + eapply (IH s1 s' ys i j c1 c2 e1 e2); eauto. lia.
 Qed.
 
+(** ------------------------------------------------------------------ non-fatal failures *)
+
+Ltac nf_step :=
+  match goal with
+  | H : ?lhs = Err _ |- _ =>
+    match lhs with
+    | Err _ => inversion H; subst; clear H; try reflexivity
+    | Ok _ => discriminate H
+    | bind ?r ?f => destruct r eqn:?; cbn [bind] in H
+    | context [match ?x with _ => _ end] => destruct x eqn:?
+    | context [if ?c then _ else _] => destruct c eqn:?
+    end
+  end.
+
+Lemma nf_increase s x a amt e : increase_balance s x a amt = Err e -> is_nonfatal e = false.
+Proof. unfold increase_balance. intros H. repeat nf_step. Qed.
+
+Lemma nf_decrease s x a amt e : decrease_balance s x a amt = Err e -> is_nonfatal e = false.
+Proof. unfold decrease_balance. intros H. repeat nf_step. Qed.
+
+Lemma nf_mutable s signer a e : mutable_checks s signer a = Err e -> is_nonfatal e = false.
+Proof.
+  unfold mutable_checks, unlock_mutable, lock_mutable. intros H.
+  destruct a; repeat nf_step.
+Qed.
+
+Lemma nf_pay_fee s signer k fa var pos e :
+  pay_fee s signer k fa var pos = Err e -> is_nonfatal e = false.
+Proof.
+  unfold pay_fee. intros H. repeat nf_step.
+  all: try (eapply nf_decrease; eassumption).
+Qed.
+
+Lemma nf_execute s signer tx idx ca e :
+  execute_action s signer tx idx ca = Err e -> is_nonfatal e = false.
+Proof.
+  destruct ca as [a cap]. unfold execute_action. intros H.
+  destruct (mutable_checks s signer a) as [u|e0] eqn:Hm; cbn [bind] in H.
+  2:{ inversion H; subst. eapply nf_mutable; eassumption. }
+  destruct a; destruct cap; repeat nf_step;
+    try (eapply nf_decrease; eassumption); try (eapply nf_increase; eassumption).
+Qed.
+
+(** frames for the era flag *)
+Lemma bb_inc s x a amt s' : increase_balance s x a amt = Ok s' -> blackburn s' = blackburn s.
+Proof. intros H. apply increase_balance_ok in H. destruct H as [-> _]. reflexivity. Qed.
+
+Lemma bb_dec s x a amt s' : decrease_balance s x a amt = Ok s' -> blackburn s' = blackburn s.
+Proof. intros H. apply decrease_balance_ok in H. destruct H as [-> _]. reflexivity. Qed.
+
+Ltac bb_step :=
+  match goal with
+  | H : decrease_balance _ _ _ _ = Ok _ |- _ => apply bb_dec in H
+  | H : increase_balance _ _ _ _ = Ok _ |- _ => apply bb_inc in H
+  | _ => inv_ok_step
+  | H : (if ?c then _ else _) = Ok _ |- _ => destruct c eqn:?
+  end.
+
+Lemma bb_pay_fee s signer k fa var pos s' evs :
+  pay_fee s signer k fa var pos = Ok (s', evs) -> blackburn s' = blackburn s.
+Proof.
+  unfold pay_fee. intros H.
+  destruct (fees s k) as [[base mult]|]; [|discriminate].
+  destruct fa as [a|]; [|inversion H; reflexivity].
+  repeat bb_step. cbn in *. congruence.
+Qed.
+
+Lemma bb_execute_action s signer tx idx ca s' :
+  execute_action s signer tx idx ca = Ok s' -> blackburn s' = blackburn s.
+Proof.
+  destruct ca as [a cap]. unfold execute_action. intros H.
+  apply bind_ok in H. destruct H as [u [_ H]].
+  destruct a; destruct cap; try discriminate H; cbv zeta in H;
+    try (match type of H with
+         | context [match ?ob with Some _ => match ?m with MemoBad => _ | MemoRollup _ _ _ _ => _ end
+                                 | None => _ end] => destruct ob; [destruct m|]
+         end);
+    try (repeat bb_step;
+         unfold put_wevent, cache_deposit, put_bridge in *; cbn in *; congruence).
+Qed.
+
+Lemma bb_pfe s signer tx idx ca s' evs :
+  pay_fees_and_execute s signer tx idx ca = Ok (s', evs) -> blackburn s' = blackburn s.
+Proof.
+  unfold pay_fees_and_execute. intros H.
+  apply bind_ok in H. destruct H as [[s1 e1] [Hp H]].
+  apply bb_pay_fee in Hp.
+  destruct (fst ca) eqn:Ea;
+    try (apply bind_ok in H; destruct H as [s2 [He H]];
+         apply bb_execute_action in He; inversion H; subst; congruence).
+  - inversion H; subst; exact Hp.
+  - destruct (execute_action s1 signer tx idx ca) as [s2|e] eqn:E; [|discriminate H].
+    exfalso. exact (execute_relay_failing_never_ok _ _ _ _ _ _ _ Ea E).
+Qed.
+
+Lemma nf_pfe s signer tx idx ca e :
+  pay_fees_and_execute s signer tx idx ca = Err (ENonFatal e) ->
+  blackburn s = true /\ exists k, fst ca = AIbcRelayFailing k.
+Proof.
+  unfold pay_fees_and_execute. cbv zeta. intros H.
+  destruct (pay_fee s signer (action_kind (fst ca)) (action_fee_asset (fst ca))
+                    (action_variable (fst ca)) idx) as [[s1 e1]|e0] eqn:Hp; cbn [bind] in H.
+  2:{ inversion H; subst. apply nf_pay_fee in Hp. discriminate Hp. }
+  apply bb_pay_fee in Hp.
+  destruct (fst ca) eqn:Ea;
+    try (destruct (execute_action s1 signer tx idx ca) as [s2|e0] eqn:E; cbn [bind] in H;
+         [discriminate H|inversion H; subst; apply nf_execute in E; discriminate E]).
+  destruct (execute_action s1 signer tx idx ca) as [s2|e0] eqn:E; [discriminate H|].
+  destruct (blackburn s1) eqn:Eb.
+  - split; [congruence|eauto].
+  - inversion H; subst. apply nf_execute in E. discriminate E.
+Qed.
+
+Lemma nf_exec_actions l : forall s signer tx idx e,
+  exec_actions s signer tx idx l = Err (ENonFatal e) ->
+  blackburn s = true /\ exists k cap, In (AIbcRelayFailing k, cap) l.
+Proof.
+  induction l as [|ca r IH]; intros s signer tx idx e H; cbn [exec_actions] in H.
+  - discriminate H.
+  - destruct (pay_fees_and_execute s signer tx idx ca) as [[s1 e1]|e0] eqn:Hp; cbn [bind] in H.
+    + destruct (exec_actions s1 signer tx (idx + 1) r) as [[s2 e2]|e0] eqn:Hq; cbn [bind] in H;
+        [discriminate H|].
+      inversion H; subst. apply IH in Hq. destruct Hq as [Hb [k [cap Hin]]].
+      apply bb_pfe in Hp. split; [congruence|]. exists k, cap. right. exact Hin.
+    + inversion H; subst. apply nf_pfe in Hp. destruct Hp as [Hb [k Hk]].
+      split; [exact Hb|]. destruct ca as [a cap]. cbn [fst] in Hk. subst a.
+      exists k, cap. left. reflexivity.
+Qed.
+
+Lemma bb_put_lasttx s x t : blackburn (put_lasttx s x t) = blackburn s.
+Proof. unfold put_lasttx. destruct (bridge s x); reflexivity. Qed.
+
+Lemma nonfatal_failure_is_identity : stmt_nonfatal_failure_is_identity.
+Proof.
+  intros s c s' e H.
+  split; [exact (failed_tx_is_identity _ _ _ _ H)|].
+  unfold exec_tx in H.
+  destruct (exec_tx_inner s c) as [[s1 e1]|e0] eqn:E; inversion H; subst; clear H.
+  unfold exec_tx_inner in E. cbv zeta in E.
+  destruct (nonce s' (ct_signer c) =? ct_nonce c); [|discriminate E].
+  destruct (checked_add U32_MAX (nonce s' (ct_signer c)) 1) as [n1|]; [|discriminate E].
+  apply nf_exec_actions in E. cbn [blackburn set_nonce] in E. rewrite bb_put_lasttx in E.
+  exact E.
+Qed.
+
 (** ------------------------------------------------------------------ non-vacuity *)
 
 Definition c03_is_ok (o : outcome) : bool := match o with OutOk _ => true | OutErr _ => false end.
@@ -271,3 +418,28 @@ Proof.
   split; [eexists; vm_compute; reflexivity|].
   vm_compute. split; reflexivity.
 Qed.
+
+(** The bundle [transfer; failing IbcRelay] signed by the relayer 5: after Blackburn it fails
+    non-fatally, before Blackburn fatally, in both eras without a trace; its first action alone
+    executes. *)
+Example nonfatal_failure_is_identity_nonvacuous :
+  let post := sample_relay_state true in
+  let pre := sample_relay_state false in
+  exec_tx post (checked post sample_tx_relay) = (post, OutErr (ENonFatal EOther)) /\
+  exec_tx pre (checked pre sample_tx_relay) = (pre, OutErr EOther) /\
+  length (ct_actions (checked post sample_tx_relay)) = 2%nat /\
+  c03_is_ok (snd (exec_tx post (checked post sample_tx_relay_prefix))) = true /\
+  bal (fst (exec_tx post (checked post sample_tx_relay_prefix))) 4 0 = 1000010.
+Proof.
+  vm_compute. repeat split; reflexivity.
+Qed.
+
+(** The nonce edge: at nonce u32::MAX - 1 a transaction executes and the nonce becomes u32::MAX;
+    there every transaction fails (checked_add), so (signer, u32::MAX) never takes effect. *)
+Example nonce_edge_nonvacuous :
+  let s1 := op_setnonce sample_state 4 (U32_MAX - 1) in
+  let s2 := fst (exec_tx s1 (checked s1 (mk_tx 109 4 (U32_MAX - 1) [ATransfer 5 1 0 0]))) in
+  nonce s2 4 = U32_MAX /\
+  snd (exec_tx s2 (checked s2 (mk_tx 110 4 U32_MAX [ATransfer 5 1 0 0]))) = OutErr ENonce /\
+  ct_nonce (checked s2 (mk_tx 110 4 U32_MAX [ATransfer 5 1 0 0])) = U32_MAX.
+Proof. vm_compute. repeat split; reflexivity. Qed.
